@@ -219,6 +219,7 @@ fn prim_ty(s: &str) -> Option<&'static str> {
         "u32" => "UInt32",
         "u64" | "usize" => "UInt64",
         "i64" => "Int64",
+        "i32" => "Int32",
         "bool" => "Bool",
         "char" => "Char",
         _ => return None,
@@ -655,6 +656,9 @@ impl<'a> Tr<'a> {
                         if first == "Cursor" && name == "new" {
                             return Some("Rs.Cursor".into());
                         }
+                        if first == "AtomicU64" && name == "new" {
+                            return Some("UInt64".into());
+                        }
                     }
                 }
                 None
@@ -737,6 +741,8 @@ impl<'a> Tr<'a> {
                     "ZipCryptoReaderValid" if self.reg.enums.contains_key("ZipCryptoValidator") => Ok("(Rs.ZcValid Gen.ZipCryptoValidator)".into()),
                     "AesReaderValid" if self.reg.enums.contains_key("AesMode") => Ok("(Rs.AesValid Gen.AesMode)".into()),
                     "String" | "str" => Ok("Bytes".into()),
+                    // `types::AtomicU64` (a relaxed atomic cell): its value
+                    "AtomicU64" => Ok("UInt64".into()),
                     n if self.reg.enums.contains_key(n) || self.reg.structs.contains(n) => Ok(format!("Gen.{n}")),
                     n => Err(format!("unsupported type {n}")),
                 }
@@ -1589,6 +1595,7 @@ impl<'a> Tr<'a> {
         match (first.as_str(), name.as_str()) {
             (_, "Wrapping") => return Ok(format!("(Rs.Wrapping.mk {})", args[0])),
             (_, "Some") => return Ok(format!("(some {})", args[0])),
+            ("AtomicU64", "new") if args.len() == 1 => return Ok(args[0].clone()),
             (_, "Ok") => return Ok(format!("(Except.ok {})", args[0])),
             (_, "Err") => return Ok(format!("(Except.error {})", args[0])),
             ("char", "from_u32") => return Ok(format!("(Rs.charFromU32 {})", args[0])),
@@ -3929,7 +3936,10 @@ fn main() {
         if fo.body.contains("Rs.Aes") || fo.body.contains("Rs.Hmac") {
             writeln!(text, "import ZipVerif.Basic.RsAes").unwrap();
         }
-        for i in &fo.imports { writeln!(text, "import ZipVerif.Gen.{i}").unwrap(); }
+        for i in &fo.imports {
+            // a dotted name is a module outside `Gen/` (hand-written glue), taken verbatim
+            if i.contains('.') { writeln!(text, "import {i}").unwrap(); } else { writeln!(text, "import ZipVerif.Gen.{i}").unwrap(); }
+        }
         writeln!(text, "/- GENERATED by rs2lean from /repo/src/{} on every check run. Do not edit. -/", f.rs).unwrap();
         writeln!(text, "set_option linter.unusedVariables false\nnamespace ZipVerif\n").unwrap();
         text += &fo.body;
